@@ -60,12 +60,41 @@ def gen_dgram(rng, community):
     if 0.74 <= r < 0.87:
         data = data[: rng.randint(0, len(data) - 1)]
         kind = "truncated"
+    elif r >= 0.93:
+        # malformed CONTENT inside an intact wrapper (message, version, community and the PDU's own
+        # header are fine; x690 decodes lazily, so nothing fails until the PDU is looked at)
+        how = rng.choice(["vblist-len", "vb-len", "not-a-pdu", "oid-dangling", "vb-arity"])
+        vb0 = [(o, v) for o, v in vbs]
+        body = B.enc_int(rng.randrange(1, 2**31)) + B.enc_int(0) + B.enc_int(0)
+        binds = [B.tlv(0x30, B.enc_oid(o) + B.enc_val(v)) for o, v in vb0]
+        if how == "vblist-len":
+            content = b"".join(binds)
+            lst = bytes([0x30]) + B.enc_len(len(content) + rng.randint(1, 9)) + content   # the list claims more octets than the PDU holds
+        elif how == "vb-len":
+            o_, v_ = vb0[-1]
+            c_ = B.enc_oid(o_) + B.enc_val(v_)
+            b0 = bytes([0x30]) + B.enc_len(len(c_) + 1) + c_   # the last binding runs over the end of the list
+            lst = B.tlv(0x30, b"".join(binds[:-1]) + b0)
+        elif how == "oid-dangling":
+            bad = B.tlv(0x30, B.tlv(0x06, bytes([43, 6, 1, 4, 1, 0x81])) + B.enc_val(["null"]))  # continuation bit set on the last octet
+            lst = B.tlv(0x30, b"".join(binds[:1]) + bad)
+        elif how == "vb-arity":
+            three = B.tlv(0x30, B.enc_oid(TRAPOID) + B.enc_int(1) + B.enc_int(2))
+            one = B.tlv(0x30, B.enc_oid(TRAPOID))
+            lst = B.tlv(0x30, b"".join(binds[:1]) + rng.choice([three, one]))
+        else:
+            lst = B.tlv(0x30, b"".join(binds))
+        pdu = B.tlv(0x04 if how == "not-a-pdu" else 0xA7, body + lst)
+        data = B.enc_community_msg(1, community, pdu)
+        kind = "inner-malformed"
     elif r >= 0.87:
         data = bytes(rng.randrange(256) for _ in range(rng.randint(0, 40)))
         kind = "garbage"
     desc = None
     try:
         m = B.parse_message(data)
+        if kind == "inner-malformed":
+            raise ValueError("malformed by construction")
         if m.get("version") in (0, 1) and "pdu" in m:
             desc = {"version": m["version"], "community": bytes(m["community"]).hex(), "tag": m["pdu"]["tag"] & 0x1F, "vbs": [[list(o), v] for o, v in m["pdu"]["varbinds"]]}
     except Exception:  # noqa: BLE001 - malformed for the independent reader
